@@ -69,7 +69,8 @@ def main():
         with open(os.path.join(VERIF, "seeded", "REGRESSION.md"), "w") as fh:
             fh.write("# Seeded changes re-run against the current checks\n\n`tools/regress_seeded.py`: each stored patch applied to a scratch "
                      "worktree of /repo HEAD, the check named in its meta.json run against it (quick tier).\n\n"
-                     "%d changes, %d detected, %d not detected.\n\n| seeded change | check | result |\n|---|---|---|\n" % (len(res), len(res) - len(bad), len(bad)))
+                     "%d changes, %d detected, %d superseded by a repo fix, %d not detected.\n\n| seeded change | check | result |\n|---|---|---|\n"
+                     % (len(res), sum(r[2] == "detected" for r in res), sum(r[2].startswith("superseded") for r in res), len(bad)))
             for d, chk, st, _t in res:
                 fh.write("| %s | %s | %s |\n" % (os.path.basename(d), chk, st))
     print("TOTAL %d, not detected: %s" % (len(res), [os.path.basename(b[0]) for b in bad]))
